@@ -36,8 +36,21 @@ def storage_jobs(cfg_ns, threads=4):
     return [Job('storage', c, n, build.build_storage_unit, threads=threads) for (c, n) in cfg_ns]
 
 
+def template_jobs(cfgs, threads=4):
+    return [Job('templates', c, 2, build.build_templates_unit, threads=threads) for c in cfgs]
+
+
 def jobs_for(prop, tier):
     quick = tier == 'quick'
+    if prop == 'C07':
+        if quick:
+            return template_jobs([D]) + storage_jobs([(R, 1)])
+        return template_jobs([D, R, DE, REW], threads=3) + storage_jobs([(c, n) for c in ALL_CFGS for n in (1, 2, 3)], threads=2)
+    if prop in ('C06', 'C09'):
+        if quick:
+            return storage_jobs([(D, 1), (R, 2), (DE, 1)]) + template_jobs([D])
+        cfgns = [(c, n) for c in ALL_CFGS for n in (1, 2, 3)] + [(D, n) for n in range(4, 17)] + [(R, 17), (D, 32)]
+        return storage_jobs(cfgns, threads=2) + template_jobs([D, R, DE, REW], threads=3)
     if prop in ('C01', 'C02', 'C03', 'C04', 'C06', 'C08', 'C09', 'C10', 'C12', 'C13'):
         if quick:
             return storage_jobs([(D, 1), (R, 2), (DE, 1)])
